@@ -117,6 +117,19 @@ ScriptsCore == {<<>>, <<Y>>}
 ScriptsPlain == {<<>>}
 CfgsCore == {Cfg(cap, "restart", 0, FALSE, FALSE, <<<<>>>>, <<Y>>) : cap \in {Unb, 0, 1}}
 CfgsCore2 == {Cfg(cap, "restart", 0, FALSE, FALSE, <<<<>>>>, <<Y>>) : cap \in {Unb, 0, 1, 2}}
+P == Eff("panic", 0, "")
+Er == Eff("err", 0, "")
+Sl(n) == Eff("sleep", n, "")
+CfgsFail == {Cfg(1, "restart", 0, FALSE, own, <<ss>>, ps) : own \in {FALSE, TRUE},
+               ss \in {<<>>, <<Y, Er>>, <<P>>}, ps \in {<<Y>>, <<P>>}}
+CfgsFailOwn == {Cfg(1, "restart", 0, FALSE, TRUE, <<ss>>, ps) : ss \in {<<>>, <<Y, Er>>, <<P>>}, ps \in {<<Y>>, <<P>>}}
+CfgsTmo == {Cfg(cap, "restart", 2, f, FALSE, <<<<>>>>, <<>>) : cap \in {Unb, 1}, f \in {FALSE, TRUE}}
+CfgsTmoU == {Cfg(Unb, "restart", 2, f, FALSE, <<<<>>>>, <<>>) : f \in {FALSE, TRUE}}
+CfgsNoTmo == {Cfg(Unb, "restart", 0, FALSE, FALSE, <<<<>>>>, <<>>)}
+CfgsStrat2 == {Cfg(1, st, 0, FALSE, FALSE, ss, <<Y>>) : st \in {"restart", "recreate", "none"}, ss \in {<<<<>>>>, <<<<>>, <<Er>>>>}}
+ScriptsFail == {<<>>, <<Y>>, <<P>>}
+ScriptsSleep == {<<>>, <<Sl(1)>>, <<Sl(3)>>}
+ScriptsSleep2 == {<<>>, <<Sl(1)>>, <<Sl(2)>>, <<Sl(3)>>, <<Y, Sl(2)>>}
 CfgsTwo == {Cfg(cap, "restart", 0, FALSE, FALSE, <<<<>>>>, <<Y>>) : cap \in {Unb, 1}}
 CfgsUnb == {Cfg(Unb, "restart", 0, FALSE, FALSE, <<<<>>>>, <<Y>>)}
 CfgsB1 == {Cfg(1, "restart", 0, FALSE, FALSE, <<<<>>>>, <<Y>>)}
